@@ -1155,7 +1155,10 @@ def run(ctx):
         if dev:
             spec_fail += 1
             want = spec if devB else orc
-            ctx.report("%s/%s" % (key, dev),
+            cls = "%s/%s" % (key, dev)
+            if case[0] in ("parse_int_radix", "parse_bigint_radix") and case[1][0][1].startswith("0x") and case[1][1][1] != 16 and o[0] == "ok":
+                cls = "parse-radix-drops-0x-prefix"     # the text was read without its first two characters
+            ctx.report(cls,
                        "%s: %s; observed %s, demanded %s" % (describe(case), dev, show_obs(o), show_want(want)),
                        {"case": case, "program": block(0, case), "observed": o, "demanded_by_coq_spec": spec, "demanded_by_oracle": orc,
                         "impl_model": impl, "how": "MSCRIPT_VERIF_TYPED_PRINT=1 mscript run t.ms -q"})
